@@ -65,6 +65,7 @@ type Exec struct {
 	curPkg *types.Package
 	useLemmas []string
 	replayInputs []replayInput
+	rangeInv map[*Loop]*Clause
 	refHeaps map[string]bool
 	nextBefore string
 	elemRange map[string]string
@@ -1260,7 +1261,38 @@ func (x *Exec) loopClauses(fr *Frame, l *Loop) []*Clause {
 	if fc == nil {
 		return nil
 	}
-	return fc.LoopInv[l.Ordinal]
+	cls := fc.LoopInv[l.Ordinal]
+	if len(cls) == 0 {
+		return cls
+	}
+	// a range-over-slice loop keeps its hidden index at -1 or above (structural in go/ssa: the index
+	// starts at -1 and is only incremented); stated as a checked invariant so that turning an index
+	// loop into a range loop does not need a new annotation
+	if x.rangeInv == nil {
+		x.rangeInv = map[*Loop]*Clause{}
+	}
+	if c, ok := x.rangeInv[l]; ok {
+		if c != nil {
+			return append(append([]*Clause{}, cls...), c)
+		}
+		return cls
+	}
+	x.rangeInv[l] = nil
+	for _, b := range []*ssa.BasicBlock{l.Header} {
+		for _, ins := range b.Instrs {
+			if st, ok := ins.(*ssa.Store); ok {
+				if al, ok := st.Addr.(*ssa.Alloc); ok && al.Comment == "rangeindex" {
+					if e, err := ParseCExpr("0 - 1 <= rangeindex"); err == nil {
+						x.rangeInv[l] = &Clause{Kind: "invariant", Label: "range_index_lower_bound", Props: fc.Props, Expr: e, Src: "0 - 1 <= rangeindex (structural)", Loop: l.Ordinal, Where: fc.Where}
+					}
+				}
+			}
+		}
+	}
+	if c := x.rangeInv[l]; c != nil {
+		return append(append([]*Clause{}, cls...), c)
+	}
+	return cls
 }
 
 func (x *Exec) contractOfFrame(fr *Frame) *FuncContract {
